@@ -329,18 +329,17 @@ def mon_finite(trace, prop="C20"):
             if v is not None and np.all(np.isfinite(v)) and np.any(v < -1e-9 * (1 + np.abs(v).max())):
                 out.append(_fail(prop, trace, t, f"negative value in {key}", float(v.min()), 0.0))
     recs = trace.get("records") or {}
-    nsim = trace.get("n_steps", 0)
+    # rows are indexed by temporal unit; only the units at which a step ran are written
+    ran = [st["t"] for st in trace["steps"]]
+    if trace.get("crashed") and ran:
+        ran = ran[:-1]      # the crashed step may be partial
     for name, a in recs.items():
         if a is None or name in ("inputs_stocks", "limiting_inputs"):
             continue
-        rows = a[: max(0, nsim)]
-        if rows.size and not np.all(np.isfinite(rows)):
-            # rows of steps that ran must be finite (a crashed last step may be partial)
-            bad_rows = np.flatnonzero(~np.all(np.isfinite(rows), axis=tuple(range(1, rows.ndim))))
-            bad_rows = [int(r) for r in bad_rows if not (trace.get("crashed") and r >= len(trace["steps"]) - 1)]
-            if bad_rows:
-                out.append(_fail(prop, trace, bad_rows[0], f"record {name} holds a non-finite value in a simulated row",
-                                 sig=f"record-nonfinite:{name}"))
+        bad_rows = [t for t in ran if t < a.shape[0] and not np.all(np.isfinite(a[t]))]
+        if bad_rows:
+            out.append(_fail(prop, trace, bad_rows[0], f"record {name} holds a non-finite value in a simulated row",
+                             sig=f"record-nonfinite:{name}"))
     return out
 
 
